@@ -42,6 +42,116 @@ def exhaustive_specs():
     return specs
 
 
+def tie_history_case(pcfg, units, U, k, sf, spec, big):
+    """one session-level history: quit when pre-terminal k has been popped, resume, run to the end"""
+    import configparser
+    from collections import Counter
+    import sched_session as ss
+    from props import C12
+    viol = []
+    for ext in ('.sav', '.omn'):
+        if os.path.exists(sf[:-4] + ext):
+            os.remove(sf[:-4] + ext)
+    steps_before = sum(1 + len(u[2]) + (1 if u[0] == 'm' else 0) for u in units[:k])
+    wit = {'spec': spec, 'quit_at_preterminal': k, 'history': 'session-tie'}
+    try:
+        a = ss.run_session(pcfg, sf, C12.new_cfg(), False, 'm' * steps_before + 'kk' + big, [('line', 'q', False)])
+        cfg = configparser.ConfigParser()
+        cfg.read(sf)
+        b = ss.run_session(pcfg, sf, cfg, True, big, [])
+    except Exception as e:
+        viol.append({'property': 'C08', 'kind': 'session-raised', 'error': repr(e)[:200], 'witness': wit})
+        return viol, 0
+    pass
+    pa = [x for x in a['popped'] if x is not None]
+    pb = [x for x in b['popped'] if x is not None]
+    if a['state'] != 'exited' or pa[:k] != U[:k] or len(pa) != k + 1:
+        viol.append({'property': 'C08', 'kind': 'first-session-differs', 'state': a['state'], 'popped': len(pa), 'witness': wit})
+        return viol, 0
+    saved = U[k][1]
+    # what was *guessed* (a popped pre-terminal may be thrown away): the printed lines against the lines of the units from k on
+    want_lines = Counter(l for u in units[k:] for l in u[2])
+    got_lines = Counter(b['out'])
+    lost_lines = list((want_lines - got_lines).items())[:4]
+    tied_before = Counter(l for u in units[:k] if u[1] == saved for l in u[2])
+    extra_lines = got_lines - want_lines
+    if lost_lines:
+        viol.append({'property': 'C08', 'kind': 'resume-lost-guesses', 'lost': str(lost_lines), 'saved_probability': repr(saved), 'witness': wit})
+    if extra_lines - tied_before:
+        viol.append({'property': 'C08', 'kind': 'illegal-repeat', 'repeated_lines': str(list((extra_lines - tied_before).items())[:4]), 'witness': wit})
+    want = Counter(U[k:])
+    got = Counter(pb)
+    lost = list((want - got).items())[:3]
+    extra = got - want
+    bad_extra = [x for x in extra if x[1] != saved or x not in U[:k]]
+    if lost:
+        viol.append({'property': 'C08', 'kind': 'resume-lost-preterminals', 'lost': str(lost), 'saved_probability': repr(saved), 'witness': wit})
+    if any(p > saved for _, p in pb):
+        viol.append({'property': 'C08', 'kind': 'above-saved-position', 'witness': wit})
+    if any(y[1] > x[1] for x, y in zip(pb, pb[1:])):
+        viol.append({'property': 'C08', 'kind': 'order', 'witness': wit})
+    if bad_extra or any(c > 1 for c in got.values()):
+        viol.append({'property': 'C08', 'kind': 'illegal-repeat', 'repeated': str(bad_extra[:3] or [x for x, c in got.items() if c > 1][:3]), 'witness': wit})
+    return viol, 2
+
+
+def session_tie_histories(ctx, viol, dist):
+    """C08 at the level of the whole session (CrackingSession.run, the .sav file written and read by the real code): rulesets with
+    exact ties between pre-terminals of different base structures; the session is quit exactly when pre-terminal k has been popped
+    (for k inside and at the borders of tie groups), resumed, possibly quit and resumed again.  Judged on the sequences of popped
+    pre-terminals: nothing from k on is lost, nothing above the saved probability, non-increasing, repeats only at the saved
+    probability."""
+    import configparser
+    from collections import Counter
+    import sched_session as ss
+    from props import C12
+    rng = ctx.rng
+    root = common.scratch_dir('rules')
+    sdir = common.scratch_dir('sess')
+    runs = 0
+    for i in range(ctx.scale(5, 20)):
+        spec = None
+        if i == 0:
+            # whatever the seed: four base structures of equal probability whose lists tie with each other at every level
+            spec = {'terminals': {'D1': [['1', '0.5'], ['2', '0.25'], ['3', '0.25']], 'O1': [['!', '0.5'], ['#', '0.25']],
+                                  'A2': [['ab', '0.5'], ['cd', '0.25']], 'C2': [['LL', '0.5'], ['UL', '0.5']]},
+                    'grammar': [['D1', '0.25'], ['O1', '0.25'], ['A2', '0.25'], ['D1O1', '0.25']], 'omen_prob': [], 'prince': [], 'mode': 'dyadic',
+                    'encoding': 'utf-8'}
+        for _ in range(0 if spec else 30):
+            cand = gen_rulesets.gen_ruleset(rng, mode='dyadic', markov=False, max_structs=3, max_pos=2, max_groups=3, max_vals=2, allow_dup_struct=False)
+            if len(cand['grammar']) >= 2:
+                spec = cand
+                break
+        if spec is None:
+            continue
+        d = common.write_ruleset(os.path.join(root, f"c08tie{i % 3}"), spec)
+        pcfg = common.load_grammar(d)
+        units = ss.units_of(pcfg)
+        if not (4 <= len(units) <= 80):
+            continue
+        pq = corr_pq.fresh_queue(pcfg)
+        U = []
+        while True:
+            it = pq.next()
+            if it is None:
+                break
+            U.append((tuple((t, j) for t, j in it['pt']), it['prob']))
+        probs = [p for _, p in U]
+        tie_ks = [k for k in range(len(U)) if (k > 0 and probs[k - 1] == probs[k]) or (k + 1 < len(U) and probs[k + 1] == probs[k])]
+        if not tie_ks:
+            continue
+        dist['session_tie_rulesets'] = dist.get('session_tie_rulesets', 0) + 1
+        ks = sorted(set(rng.sample(tie_ks, min(len(tie_ks), ctx.scale(40, 200))) + [0, len(U) - 1]))
+        big = 'm' * (sum(len(u[2]) + 2 for u in units) + 10)
+        for k in ks:
+            sf = os.path.join(sdir, f"c08tie_{i}_{k}.sav")
+            vs, nr = tie_history_case(pcfg, units, U, k, sf, spec, big)
+            viol += vs
+            runs += nr
+    dist['session_tie_runs'] = dist.get('session_tie_runs', 0) + runs
+    return runs
+
+
 def run(ctx, focus):
     rng = ctx.rng
     n_random = ctx.scale(150, 1200 if focus != 'C08' else 350) * (3 if ctx.proof_broken and ctx.quick else 1)
@@ -146,6 +256,7 @@ def run(ctx, focus):
                     violations.append({'property': 'C08', 'kind': 'resume-cli-differs', 'flags': fl, 'first_run_lines': o1.count(b'\n'),
                                        'resumed_lines': o2.count(b'\n'), 'witness': {'spec': spec, 'cli': fl}})
         cases += cli_runs
+        cases += session_tie_histories(ctx, violations, dist)
     return {
         'evaluations': cases, 'distinct_nontrivial': nontrivial, 'traces': cases + cuts,
         'rule': 'rulesets from gen_rulesets (dyadic / float / tiny-magnitude probabilities, repeated variable types, '
@@ -162,6 +273,21 @@ def run(ctx, focus):
 
 def replay(ctx, payload, focus):
     w = payload.get('violation', {}).get('witness') or payload.get('witness')
+    if w and w.get('history') == 'session-tie':
+        import sched_session as ss
+        common.use_impl()
+        d = common.write_ruleset(os.path.join(common.scratch_dir('rules'), 'replay08tie'), w['spec'])
+        pcfg = common.load_grammar(d)
+        units = ss.units_of(pcfg)
+        pq = corr_pq.fresh_queue(pcfg)
+        U = []
+        while True:
+            it = pq.next()
+            if it is None:
+                break
+            U.append((tuple((t, j) for t, j in it['pt']), it['prob']))
+        big = 'm' * (sum(len(u[2]) + 2 for u in units) + 10)
+        return tie_history_case(pcfg, units, U, w['quit_at_preterminal'], os.path.join(common.scratch_dir('sess'), 'replay08tie.sav'), w['spec'], big)[0]
     if w and 'cli' in w:
         common.install_ruleset(w['spec'], 'replay08')
         o1, _, _ = common.run_cli('pcfg_guesser.py', ['-r', 'replay08', '-s', 'replay08'] + w['cli'], stdin='pipe-open')
